@@ -35,7 +35,9 @@
 (*     several alternatives): only membership and leftmost START;          *)
 (*   - Unicode category membership beyond the nine characters;             *)
 (*   - case-insensitive matching beyond the ASCII pair a/A, and the effect *)
-(*     of flag i on multi-character / category escapes INSIDE a class;     *)
+(*     of flag i on multi-character / category escapes INSIDE a class and  *)
+(*     on ranges (a range such as [5-_] contains 'B', the case partner of  *)
+(*     b, which is no alphabet member: the set abstraction is not exact);  *)
 (*   - position rules of an unescaped '-' inside a class in XSD 1.1.       *)
 (***************************************************************************)
 EXTENDS Naturals, Sequences, FiniteSets
